@@ -54,6 +54,33 @@ CLAIMED = {
         'design_ref': 'DESIGN.md section 5 C16',
         'technique': 'Coq proof (same parser invariant, error-kind clause) + differential correspondence on malformed inputs',
     },
+    'C11': {
+        'category': 'proof',
+        'text': ('Kernel-checked: for every type, every data string and every schedule of short reads and Interrupted results (down to one byte per call, different for each call), decoding from the scheduled reader returns '
+                 'exactly what decoding from the slice returns and leaves the reader exactly past the value, for both read_exact implementations (std default method and the no_std shim) (C11_fragment, via a generic '
+                 'simulation lemma over the decoder and an invariant+measure analysis of the byte-vector loop incl. the chunk doubling and the Interrupted retry); a hard failure reached while the value is incomplete is returned '
+                 'with kind and message unchanged (C11_failure); the whole-input entry points consume at most one byte beyond the value (C11_probe). ' + CORR +
+                 ' All compositions of encodings up to 10 bytes, Interrupt at every call index, Fail at every byte offset, >1 MiB vectors, std and no_std builds.'),
+        'design_ref': 'DESIGN.md section 5 C11; NOTES-io.md',
+        'technique': 'Coq proof (reader simulation + loop invariant) + scheduled-reader differential correspondence',
+    },
+    'C12': {
+        'category': 'proof',
+        'text': ('Kernel-checked: for every value and writer schedule (splits, Interrupted, Ok(0), failures) the sink after to_writer is a prefix of the encoding, all of it on Ok; a failure or a full fixed buffer after j bytes returns '
+                 'that error unchanged (WriteZero/"failed to write whole buffer" for a full buffer) with exactly the first j bytes delivered; a buffer of exactly the right size is filled; object_length equals the length of the encoding '
+                 '(OutOfMemory only past 2^64); for the std write_all contract and the shim. ' + CORR + ' Fixed buffers of every capacity 0..len+1, failure at every offset, splitting schedules, both builds.'),
+        'design_ref': 'DESIGN.md section 5 C12; NOTES-io.md',
+        'technique': 'Coq proof (write_all loop invariant over the write trace) + scheduled-writer differential correspondence',
+    },
+    'C13': {
+        'category': 'proof',
+        'text': ('Kernel-checked: for every sequence of read/read_exact/write/write_all/by_ref operations on slice readers, slice writers and Vec writers the model of the no_std shim and the model of the std::io contract produce '
+                 'the same observable outcomes wherever std specifies them (C13_io); encoder, decoder and entry points do not depend on which io implementation is used (C13_codec). PARTIAL by nature: that the two BUILDS link '
+                 'different collection crates is tied by running both, not by proof. ' + CORR + ' The same seeded workload in the std and no_std+hashbrown builds must give identical transcripts equal to the model\'s; op sequences run '
+                 'against real std::io and the real shim side by side in one binary.'),
+        'design_ref': 'DESIGN.md section 5 C13; NOTES-io.md',
+        'technique': 'Coq proof (op-sequence equivalence of two io models) + cross-build transcript comparison',
+    },
     'C14': {
         'category': 'proof',
         'text': ('Kernel-checked on the model: every guarded collection kind with a memory-zero-sized element/key type is refused with InvalidData+ZST message on serialize for every value '
